@@ -116,6 +116,7 @@ def make_config(rng, fn=None, big=False, coefs=None, maxvars=6, one_shot_ok=Fals
     zero_entry = False
     stale_degree = False
     long_spelling = False
+    derived = None
     if tn == "dict":
         m = dict(terms)
         if m and rng.random() < 0.2:
@@ -162,7 +163,24 @@ def make_config(rng, fn=None, big=False, coefs=None, maxvars=6, one_shot_ok=Fals
                 m = gen.model_of(getattr(L, tn), terms)          # (the penalty is not quadratic: not an input of the quadratic annealers)
                 constrained = False
         m.refresh()
-        if d2 and tn in ("PUBO", "PCBO", "PUSO", "PCSO", "PUBOMatrix", "PUSOMatrix") and rng.random() < 0.3:
+        if not mat and labs and rng.random() < 0.12:
+            # the model is one of several derived from a common ancestor (copy / copy constructor / sum with nothing), and
+            # every one of them then grows by a variable of its own: what one sibling learns must not show in another
+            base_ = m
+            how_ = rng.choice(["copy", "ctor", "add-empty", "deepcopy"])
+            import copy as _copy
+            mk_ = {"copy": lambda: base_.copy(), "ctor": lambda: type(base_)(base_), "add-empty": lambda: base_ + {}, "deepcopy": lambda: _copy.deepcopy(base_)}[how_]
+            first_ = mk_()
+            l0_ = labs[0]
+            n1_, n2_, n3_ = [("nv%d" % i_) if isinstance(l0_, str) else (("nv", i_) if isinstance(l0_, tuple) else
+                                                                       ((1000.5 + i_) if isinstance(l0_, float) else 1000 + i_)) for i_ in (1, 2, 3)]
+            first_[(n1_,)] += 3                        # (single-label keys: labels of one key must be mutually orderable)
+            base_[(n2_,)] += -2                         # the ancestor grows too ...
+            second_ = mk_()
+            second_[(n3_,)] += 5                        # ... and so does a younger sibling
+            m = first_
+            derived = how_
+        if d2 and not derived and tn in ("PUBO", "PCBO", "PUSO", "PCSO", "PUBOMatrix", "PUSOMatrix") and rng.random() < 0.3:
             # a quadratic model held by a higher-degree type, with a history: a cubic term came and went, so the object's
             # `degree` bookkeeping (an upper bound until refresh) still says 3
             tv_ = sorted({x for k_ in m for x in k_}, key=repr)
@@ -238,7 +256,7 @@ def make_config(rng, fn=None, big=False, coefs=None, maxvars=6, one_shot_ok=Fals
         # labels 0..n-1: the state spelled as a sequence indexed by label (the repository's own tests spell it so)
         kw["initial_state"] = rng.choice([list, tuple])(kw["initial_state"][i] for i in range(len(full)))
         seq_state = True
-    return {"seq_state": seq_state, "zero_entry": zero_entry, "stale_degree": stale_degree, "long_spelling": long_spelling, "fn": fn, "type": tn, "model": m, "terms": dict(m), "kw": kw, "poly": p, "kind": kind,
+    return {"derived_sibling": derived, "seq_state": seq_state, "zero_entry": zero_entry, "stale_degree": stale_degree, "long_spelling": long_spelling, "fn": fn, "type": tn, "model": m, "terms": dict(m), "kw": kw, "poly": p, "kind": kind,
             "true_vars": tv, "full_keys": full, "own_matrix": own, "matrix": mat, "schedule_kind": sch, "user_mapping": mapped, "coef_kind": coef_kind, "numpy_spelled": numpy_spelled,
             "constrained": constrained}
 
